@@ -46,8 +46,8 @@ def geom_cases(draw):
     g["pad_value"] = draw(st.integers(-5, 5))
     g["dtype"] = draw(st.sampled_from(["float64", "float32"]))
     n = N * C * g["H"] * g["W"]
-    g["x"] = draw(hnp.arrays(np.int8, (n,), elements=st.integers(-9, 9))).tolist()
-    g["y"] = draw(hnp.arrays(np.int8, (48,), elements=st.integers(-9, 9))).tolist()
+    g["x"] = draw(hnp.arrays(np.int8, (n,), elements=st.integers(-9, 9), fill=st.nothing())).tolist()
+    g["y"] = draw(hnp.arrays(np.int8, (48,), elements=st.integers(-9, 9), fill=st.nothing())).tolist()
     return g
 
 
@@ -183,8 +183,8 @@ def geom1d_cases(draw):
     N = draw(st.integers(1, 3)); C = draw(st.integers(1, 3))
     g = {"N": N, "C": C, "W": a["L"], "k": a["k"], "s": a["s"], "d": a["d"], "p": a["p"],
          "pad_value": draw(st.integers(-5, 5)), "dtype": draw(st.sampled_from(["float64", "float32"]))}
-    g["x"] = draw(hnp.arrays(np.int8, (N * C * a["L"],), elements=st.integers(-9, 9))).tolist()
-    g["y"] = draw(hnp.arrays(np.int8, (24,), elements=st.integers(-9, 9))).tolist()
+    g["x"] = draw(hnp.arrays(np.int8, (N * C * a["L"],), elements=st.integers(-9, 9), fill=st.nothing())).tolist()
+    g["y"] = draw(hnp.arrays(np.int8, (24,), elements=st.integers(-9, 9), fill=st.nothing())).tolist()
     return g
 
 
